@@ -209,7 +209,7 @@ def build_binary(job, work, d, jr, extra_defs):
         cur = b
     if job.get("enforce") or job.get("loop_contracts") or job.get("replace"):
         b = os.path.join(d, "c.gb")
-        cmd = ["goto-instrument", "--dfcc", job["harness"]]
+        cmd = ["goto-instrument"] + job.get("gi_flags", []) + ["--dfcc", job["harness"]]
         if job.get("enforce"):
             cmd += ["--enforce-contract", job["enforce"]]
         for g in job.get("replace", []):
@@ -229,7 +229,7 @@ def build_binary(job, work, d, jr, extra_defs):
 
 def check_binary(job, work, d, jr, cur, tier):
     timeout = int(os.environ.get("VERIF_TIMEOUT", job.get("timeout", 900) * (3 if tier == "thorough" else 1)))
-    cmd = ["cbmc", cur, "--drop-unused-functions"] + CBMC_CHECKS
+    cmd = ["cbmc", cur, "--drop-unused-functions"] + [c for c in CBMC_CHECKS if c not in job.get("checks_off", [])]
     if job.get("unwind"):
         cmd += ["--unwind", str(job["unwind_thorough"] if tier == "thorough" and job.get("unwind_thorough") else job["unwind"]),
                 "--unwinding-assertions"]
@@ -271,6 +271,9 @@ def check_binary(job, work, d, jr, cur, tier):
             continue
         if r["status"] != "FAILURE":
             # CBMC reports UNKNOWN for obligations it leaves undecided once an undefined-behaviour check failed
+            if any(re.search(p, (r["description"] or "")) and (f is None or (r.get("function") or "") == f) for p, f in ignore):
+                obs.append(r)
+                continue
             undecided.append(r)
             continue
         if any(re.search(p, (r["description"] or "")) and (f is None or (r.get("function") or "") == f) for p, f in ignore):
